@@ -119,7 +119,14 @@ func (k Keeper) SetPOAPower(ctx context.Context, valOpBech32 string, newShares i
 		}
 	}
 
-	absPowerDiff := uint64(math.Abs(float64(newBFTConsensusPower - currentPower)))
+	// The change counted against the per-block limit is measured from the power the validator holds at this point of
+	// the block, which differs from its last power when it was already updated earlier in the same block.
+	powerBefore := int64(0)
+	if val.IsBonded() && !val.Jailed {
+		powerBefore = k.stakingKeeper.TokensToConsensusPower(ctx, currentTokens)
+	}
+
+	absPowerDiff := uint64(math.Abs(float64(newBFTConsensusPower - powerBefore)))
 
 	k.Logger().Debug("POA updatePOAPower",
 		"valOpBech32", valOpBech32,
